@@ -110,6 +110,10 @@ ALL = [
        batching={'C0': [seq(1, 3, 0, 2), det(2)]}, baulking={'C0': [{'b': 'thresh', 'k': 2}, None]}, T=40.0, seed=2),
     # reneging with jockeying to another node
     mk('renege_and_jockey', [I(1), I(1)], [det(1.0), None], [det(3.0), det(0.5)], NR({'k': 'jockey', 'to': 2}, {'k': 'leave'}), reneging={'C0': [det(1.5), None]}, T=30.0),
+    mk('jockey_to_full_node', [I(1), I(1)], [det(1.0), seq(0.25, 1000)], [det(3.0), det(50.0)], NR({'k': 'jockey', 'to': 2}, {'k': 'leave'}), qcap=[INF, 0],
+       reneging={'C0': [det(1.5), None]}, T=30.0),
+    mk('class_change_back_and_forth_tracker', [I(1)], {'A': [det(1.0)], 'B': [None]}, {'A': [det(1.75)], 'B': [det(1.75)]}, TM([[0.25]]), classes=['A', 'B'],
+       ccm=[{'A': {'A': 1.0, 'B': 0.0}, 'B': {'A': 1.0, 'B': 0.0}}], cct={'A': {'B': det(0.5)}}, tracker='NodeClassMatrix', T=30.0, seed=4),
     # process-based and flexible process-based routes
     mk('process_based', [I(1), I(1), I(2)], [det(1.0), None, None], [det(0.5), det(0.75), det(1.0)], {'r': 'pb', 'routes': [[2, 3], [3], [2, 3, 2]]}, T=30.0),
     mk('flexible_all_jsq', [I(1), I(1), I(1)], [det(1.0), None, None], [det(0.5), det(1.75), det(1.0)], {'r': 'fpb', 'routes': [[[2, 3]], [[3, 2], [1]], [[2]]], 'rule': 'all', 'choice': 'jsq'}, T=30.0),
